@@ -163,7 +163,7 @@ func C06(r *explore.Run) {
 // ---------------------------------------------------------------------------
 // C16
 
-var trivia = []string{" ", "\n", "\t ", "/*c*/", " /* c */ ", "--c\n", "#c\n", "//c\n", "", "\f", "\v", "\r\n", "\u00a0", "\u3000\u0085"}
+var trivia = []string{" ", "\n", "\t ", "/*c*/", " /* c */ ", "--c\n", "#c\n", "//c\n", "", "\f", "\v", "\r\n", "\u00a0", "\u3000\u0085", "/***/", "/* x **/", "/*/ */"}
 
 func caseVariant(s string, k int) string {
 	switch k {
@@ -208,23 +208,24 @@ func valueForAdmission(t lexref.Tok) string {
 
 // C16: whitespace, comments and keyword case never change the AST.
 func C16(r *explore.Run) {
-	r.Rule = "every sentence of G within the sentence bound x every re-spelling within the re-spelling bound (trivia alphabet {SP,LF,TAB SP,/*c*/,SP/* c */SP,--c LF,#c LF,//c LF,'',FF,VT,CRLF,NBSP,U+3000 U+0085} at each gap incl. before the first and after the last token; case {UPPER,lower,MiXeD} of each reserved/pseudo keyword) plus the uniform re-spellings; " +
+	r.Rule = "every sentence of G within the sentence bound x every re-spelling within the re-spelling bound (trivia alphabet {SP,LF,TAB SP,/*c*/,SP/* c */SP,--c LF,#c LF,//c LF,'',FF,VT,CRLF,NBSP,U+3000 U+0085,/***/,/* x **/,/*/ */} at each gap incl. before the first and after the last token; case {UPPER,lower,MiXeD} of each reserved/pseudo keyword) plus the uniform re-spellings; " +
 		"a re-spelling is admitted only if the reference lexer R1 gives it the same significant tokens as the default spelling; oracle: accepted and R4-equal to the default spelling's tree; non-trivial = admitted re-spelling; distinct by text"
 	r.Assume = []string{"R1 decides admission, never the implementation"}
-	type bound struct{ s, r int }
-	bounds := []bound{{2, 1}}
+	// the core trivia (one per lexical class) are used with the deeper sentences, the whole alphabet with the shallow ones
+	core := []string{" ", "\n", "/*c*/", "--c\n", "", "\r\n"}
+	all := trivia
+	respell(r, 1, 1, all)
+	respell(r, 2, 1, core)
 	if r.Tier == "thorough" {
-		bounds = []bound{{2, 1}, {1, 2}}
-	}
-	for _, bd := range bounds {
-		respell(r, bd.s, bd.r)
+		respell(r, 2, 1, all)
+		respell(r, 1, 2, all)
 	}
 }
 
-func respell(r *explore.Run, sDev, rDev int) {
+func respell(r *explore.Run, sDev, rDev int, trivia []string) {
 	roots := grammar.Roots
-	r.Explore(explore.Options{Space: fmt.Sprintf("S6/respellings(%d,%d)", sDev, rDev), MaxDev: sDev + rDev, SplitLen: 3,
-		Bound: fmt.Sprintf("sentences of G with <=%d deviations x (re-spellings with <=%d deviations + %d uniform re-spellings)", sDev, rDev, len(trivia)*3)},
+	r.Explore(explore.Options{Space: fmt.Sprintf("S6/respellings(%d,%d,%d trivia)", sDev, rDev, len(trivia)), MaxDev: sDev + rDev, SplitLen: 3,
+		Bound: fmt.Sprintf("sentences of G with <=%d deviations x (re-spellings with <=%d deviations over %d trivia forms + %d uniform re-spellings)", sDev, rDev, len(trivia), len(trivia)*3)},
 		func(c *explore.Ctx) {
 			root := roots[c.ChooseFree(len(roots))]
 			s := grammar.Derive(c, root)
